@@ -724,6 +724,15 @@ func (g *Gen) instr(ins ssa.Instruction, b *ssa.BasicBlock, in map[*ssa.BasicBlo
 		g.phi(x, b, in)
 	case *ssa.Call:
 		g.call(x)
+		if g.con != nil && len(g.con.After) > 0 && len(g.inlineStack) == 0 {
+			if k := g.callOrdinal(x); k > 0 {
+				cx := g.ctxHere()
+				cx.vars["lastcall"] = g.env[x].V
+				for _, c := range g.con.After[k] {
+					g.obligeClause(fmt.Sprintf("after[%d]", k), g.evalBool(c.Expr, cx, c), c)
+				}
+			}
+		}
 	case *ssa.MakeClosure:
 		// closure value: opaque id; bindings remembered for direct calls
 		g.closures[x] = x
@@ -759,6 +768,29 @@ func (g *Gen) instr(ins ssa.Instruction, b *ssa.BasicBlock, in map[*ssa.BasicBlo
 	default:
 		oos("unsupported instruction %T: %s", ins, ins)
 	}
+}
+
+// callOrdinal: 1-based index of a call instruction among the function's calls in source order
+func (g *Gen) callOrdinal(x *ssa.Call) int {
+	if g.callOrd == nil {
+		g.callOrd = map[*ssa.Call]int{}
+		var calls []*ssa.Call
+		for _, b := range g.fn.Blocks {
+			for _, ins := range b.Instrs {
+				if c, ok := ins.(*ssa.Call); ok && c.Pos().IsValid() {
+					if bi, isB := c.Call.Value.(*ssa.Builtin); isB && (strings.HasPrefix(bi.Name(), "ssa:") || bi.Name() == "len" || bi.Name() == "cap" || bi.Name() == "min" || bi.Name() == "max") {
+						continue
+					}
+					calls = append(calls, c)
+				}
+			}
+		}
+		sort.SliceStable(calls, func(i, j int) bool { return calls[i].Pos() < calls[j].Pos() })
+		for i, c := range calls {
+			g.callOrd[c] = i + 1
+		}
+	}
+	return g.callOrd[x]
 }
 
 func (g *Gen) toEdge(from, to *ssa.BasicBlock, cond Term, in map[*ssa.BasicBlock][]edge) {
